@@ -33,6 +33,7 @@ for _n in ("year", "month", "quarter", "week", "day", "date", "isoyear", "isowee
 # result of calling an opaque algo (user code) on a target in this run, and ghost bookkeeping
 algoret_f = z3.Function("algo_returns", dsl.Ref, z3.BoolSort())
 inlist_f = z3.Function("in_dates", dsl.Ref, z3.IntSort(), z3.BoolSort())
+searchsorted_f = z3.Function("searchsorted", z3.IntSort(), z3.IntSort())
 
 
 class TempV(object):
@@ -109,11 +110,20 @@ class AlgoExecutor(Executor):
             return [(st, Num(CAL[attr](obj.r), False, True))]
         if isinstance(obj, Num) and obj.is_int and attr in ("date", "isocalendar"):
             return [(st, BoundFn("cal", attr, recv=obj))]
+        if isinstance(obj, BoundFn) and obj.kind == "index" and attr == "searchsorted":
+            return [(st, BoundFn("searchsorted", attr, recv=obj.recv))]
         if isinstance(obj, RefV) and attr in ("temp", "perm"):
             return [(st, TempV(obj, attr))]
         return None
 
     def ext_call_value(self, st, f, pos, kw):
+        if isinstance(f, BoundFn) and f.kind == "searchsorted":
+            d = self._num(st, pos[0])
+            self.index_facts_label(st, d)
+            r = searchsorted_f(d.r)
+            # number of labels strictly below d: position of d when present
+            st.assume(And(r >= 0, r <= idxlen_c, Implies(inidx_f(d.r), r == idx_f(d.r))))
+            return [(st, Num(r, False, True))]
         if isinstance(f, BoundFn) and f.kind == "cal":
             x = f.recv
             if f.name == "date":
@@ -123,6 +133,14 @@ class AlgoExecutor(Executor):
         if isinstance(f, RefV):
             return self.call_object(st, f, pos, kw)
         return None
+
+    def ext_hasattr(self, st, e):
+        if isinstance(e.args[1], ast.Constant) and e.args[1].value == "run_always":
+            out = []
+            for (s, obj) in self.eval(e.args[0], st):
+                out.append((s, s.heap.get(obj, "has_run_always")))
+            return out
+        self._undecided("hasattr(%s)" % ast.dump(e.args[1]))
 
     def ext_modfn(self, st, name, pos, kw):
         if name in ("pd.Timestamp", "pd.to_datetime"):
@@ -145,11 +163,16 @@ class AlgoExecutor(Executor):
             if fi is not None and not opaque:
                 return self.call_function(st, fi, obj, pos, kw)
         # opaque algo: ghost log + uninterpreted result
-        hook = getattr(self, "on_opaque_call", None)
         r = algoret_f(obj.term)
         st.log.append(("<algo>", obj, tuple(pos)))
-        if hook:
-            return hook(st, obj, pos, r)
+        # ghost bookkeeping of the invocation: g_calls[a] += 1, g_clock[target] += 1, g_stamp[a] = clock
+        if pos and isinstance(pos[0], RefV):
+            target = pos[0]
+            h = st.heap
+            clk = h.get(target, "g_clock") + 1
+            h.set(target, "g_clock", clk)
+            h.set(obj, "g_calls", h.get(obj, "g_calls") + 1)
+            h.set(obj, "g_stamp", clk)
         return [(st, r)]
 
     def schema_opaque_call(self, cls):
